@@ -80,6 +80,15 @@ def compare(cfg, ops):
     case = dict(cfg=cfg.key(), ops=ops)
     disc_all = any(op == ('disc', None) for r in pair.values() for op in r.log[:upto])      # (the runners' logs: a stimulus whose precondition does not hold is not executed)
     v = None
+    def d17(s):
+        # the session was opened by a WebSocket request without 'Connection: upgrade' (finding D17: it is left on no transport)
+        r0 = pair['threaded']
+        for rid, info in r0.req_info.items():
+            if info[0] == 'open' and info[1] == ('new', s):
+                op = r0.log[req_step(r0, rid)]
+                return op[1] == 'websocket' and len(op) > 3 and op[3] is False
+        return False
+
     def same_session(s):
         x, y = a[0].get(s, ([], [])), b[0].get(s, ([], []))
         if x[0] != y[0]:
@@ -110,7 +119,7 @@ def compare(cfg, ops):
         what = 'events' if ea != eb else 'messages'
         only_missing_server_disc = (eb == ea + [('disconnect', 'server disconnect')])
         v = dict(what='the two servers differ in the %s of a session' % what, case=dict(case, session=s, threaded=a[0].get(s), asyncio=b[0].get(s)),
-                 facts=dict(clause='obs-' + what, disconnect_all=disc_all, threaded_lacks_server_disconnect=only_missing_server_disc))
+                 facts=dict(clause='obs-' + what, disconnect_all=disc_all, threaded_lacks_server_disconnect=only_missing_server_disc, opened_without_connection_upgrade=d17(s)))
     elif a[1] != b[1]:
         rid = sorted(k for k in set(a[1]) | set(b[1]) if a[1].get(k) != b[1].get(k))[0]
         v = dict(what='the two servers differ in admitting a request', case=dict(case, rid=rid, threaded=a[1].get(rid), asyncio=b[1].get(rid)), facts=dict(clause='obs-admission', disconnect_all=disc_all))
